@@ -203,7 +203,10 @@ CHECKS["C06"] = {
 BROKERRIG = ["pkg/object/mqttproxy", "harness/common/mqttproxy"]
 BROKERINSTR = [{"file": "pkg/object/mqttproxy/broker.go", "imports": {"net": "vnet"}, "need_vrt": True,
                 "replace": [{"old": "for clientID, subQoS := range subscribers {",
-                             "new": "for _, clientID := range zzvrt.StringKeys(subscribers, \"sendMsgToClient\") {\n\t\tsubQoS := subscribers[clientID]"}]}]
+                             "new": "for _, clientID := range zzvrt.StringKeys(subscribers, \"sendMsgToClient\") {\n\t\tsubQoS := subscribers[clientID]"}]},
+               {"file": "pkg/object/mqttproxy/topic.go", "need_vrt": True,
+                "replace": [{"old": "for nodeLevel, nextNode := range node.nodes {",
+                             "new": "for _, nodeLevel := range zzvrt.StringKeys(node.nodes, \"findSubscribers\") {\n\t\t\t\tnextNode := node.nodes[nodeLevel]"}]}]
 
 CHECKS["C15"] = {
     "level": "model_checking",
